@@ -253,6 +253,17 @@ static unsigned char *get_jpeg(const char *ref, size_t *outsz)
   case 't': if (a >= 1 && (size_t)a < n) n = a; break;             /* truncate to a bytes */
   case 'm': if (nm > 1) { n = off[1 + a % (nm - 1)]; } break;       /* cut right before a marker */
   case 'M': if (nm > 1) { n = off[1 + a % (nm - 1)] + 2 + (b % 3); if (n > libsz[id]) n = libsz[id]; } break; /* cut inside a segment */
+  case 'S': {                                                      /* cut in the middle of the data of the a-th COM / APPn segment */
+    int cand[64], nc = 0;
+    for (i = 0; i < nm; i++)
+      if (off[i] + 4 <= n && buf[off[i]] == 0xFF && (buf[off[i] + 1] == 0xFE || (buf[off[i] + 1] & 0xF0) == 0xE0) &&
+          ((buf[off[i] + 2] << 8) | buf[off[i] + 3]) >= 6) cand[nc++] = i;
+    if (nc) {
+      size_t o = off[cand[a % nc]], len = (size_t)((buf[o + 2] << 8) | buf[o + 3]);
+      size_t cut = o + 4 + (len - 2) * (size_t)(1 + b % 3) / 4;     /* 1/4, 2/4 or 3/4 of the payload is present */
+      if (cut < n) n = cut;
+    }
+    break; }
   case 'e': if (ecs < n) n = ecs + (n - ecs) * (size_t)(a % 1000) / 1000; break;   /* cut inside entropy data */
   case 'z': if (ecs < n) { size_t s = ecs + (n - ecs) * (size_t)(a % 1000) / 1000, l = 8 + b % 64;   /* garbage inside entropy data */
                            for (i = 0; (size_t)i < l && s + i + 2 < n; i++) buf[s + i] = (unsigned char)(0x35 + 7 * i); } break;
